@@ -13,12 +13,12 @@ import vlib
 PID = "C08"
 
 
-def tcp_frame(payload, sport=40000, dport=443, src=(10, 0, 0, 1), dst=(10, 0, 0, 2), seq=1, ipopt=b""):
+def tcp_frame(payload, sport=40000, dport=443, src=(10, 0, 0, 1), dst=(10, 0, 0, 2), seq=1, ipopt=b"", dmac=(2, 0, 0, 0, 0, 2)):
     tcp = bytes([sport >> 8, sport & 255, dport >> 8, dport & 255, (seq >> 24) & 255, (seq >> 16) & 255, (seq >> 8) & 255, seq & 255,
                  0, 0, 0, 1, 0x50, 0x18, 0xff, 0xff, 0, 0, 0, 0]) + bytes(payload)
     total = 20 + len(ipopt) + len(tcp)
     ip = bytes([0x40 | (5 + len(ipopt) // 4), 0, total >> 8, total & 255, 0x12, 0x34, 0x40, 0, 64, 6, 0, 0]) + bytes(src) + bytes(dst) + ipopt
-    eth = bytes([2, 0, 0, 0, 0, 2, 2, 0, 0, 0, 0, 1, 8, 0])
+    eth = bytes(dmac) + bytes([2, 0, 0, 0, 0, 1, 8, 0])
     f = eth + ip + tcp
     # what follows the IP datagram in a captured frame is link-layer trailer, not TCP payload: every other source port pads its short
     # frames to the 60-octet Ethernet minimum (as frames received from the wire are), every third appends a 4-octet frame check sequence
@@ -235,13 +235,33 @@ def run(tier, v):
                 # every second connection crosses routers that fill in an Internet Timestamp option (RFC 791): IP options whose content is
                 # different in every packet of the connection
                 ipopt = bytes([68, 8, 9, 0]) + (0x01020304 * (k + 1) + 977 * ci).to_bytes(4, "big") if ci % 2 == 1 else b""
-                fr.append(tcp_frame(h[p:p + n], sport=43000 + gi * 50 + ci, src=(10, 9, 1 + gi, 1 + ci), seq=1 + p, ipopt=ipopt))
+                # every third connection goes to a station whose (locally administered) address begins 1e:00 -- the first octets of
+                # the loopback link-layer header, and 45:00 / 60:00 -- the first octets of an IPv4 / IPv6 header
+                dmac = ((2, 0, 0, 0, 0, 2), (0x1e, 0, 0x5e, 0x10, 0x20, 0x30), (0x45, 0, 0, 40, 0, 0))[ci % 3] if gi % 2 == 0 else ((2, 0, 0, 0, 0, 2), (0x60, 0, 0, 0, 0, 20), (0x1e, 0, 0, 0, 0x60, 0))[ci % 3]
+                fr.append(tcp_frame(h[p:p + n], sport=43000 + gi * 50 + ci, src=(10, 9, 1 + gi, 1 + ci), seq=1 + p, ipopt=ipopt, dmac=dmac))
                 p += n
             per.append(fr)
         frames = [per[ci][k] for k in range(3) for ci in range(len(group))]
         pool_lines.append({"id": len(pool_lines), "crate": "tls", "workers": nw, "queue": 64, "batch": bs, "timeout_ms": 5, "gap_us": 300, "cap": len(group),
                            "dispatchers": [frames], "matcher": False, "perturb": 0})
         pmeta.append((group, "interleaved", nw, bs))
+    # a burst: twelve connections, each ClientHello in three segments, dispatched without a pause into ONE worker whose batches hold up
+    # to 64 packets -- whatever a worker does with a batch, the segments of a connection are analysed in the order they arrived
+    burst = [hi for hi in range(0, len(hellos), max(1, len(hellos) // 13))][:12]
+    for rep in range(10 if tier == "thorough" else 5):
+        per = []
+        for ci, hi in enumerate(burst):
+            h = hellos[hi]
+            cuts = [len(h) // 3, len(h) // 3, len(h) - 2 * (len(h) // 3)]
+            fr, p = [], 0
+            for n in cuts:
+                fr.append(tcp_frame(h[p:p + n], sport=44000 + rep * 50 + ci, src=(10, 9, 20 + rep, 1 + ci), seq=1 + p))
+                p += n
+            per.append(fr)
+        frames = [per[ci][k] for k in range(3) for ci in range(len(burst))]
+        pool_lines.append({"id": len(pool_lines), "crate": "tls", "workers": 1, "queue": 256, "batch": 64, "timeout_ms": 5, "gap_us": 0, "cap": 64,
+                           "dispatchers": [frames], "matcher": False, "perturb": 0})
+        pmeta.append((burst, "interleaved", 1, 64))
     preq = os.path.join(wd, "pool.req")
     vlib.write_ndjson(preq, pool_lines)
     pout = os.path.join(wd, "pool.out")
